@@ -171,3 +171,172 @@ Fixpoint mrun (fixed : bool) (s : sst) (ls : list mlabel) : option sst :=
   match ls with [] => Some s | l :: r => match mstep fixed s l with Some s' => mrun fixed s' r | None => None end end.
 
 Definition m_workers (s : sst) : nat := m_cur s + m_old s.
+
+(* ================================================================ (c) tree-level wrappers
+   internal/structures/btreev2_incremental.go:
+     WritableBTreeV2.EnableIncrementalRebalancing       (135-170)
+     WritableBTreeV2.StopIncrementalRebalancing         (189-218)
+     WritableBTreeV2.IsIncrementalRebalancingEnabled    (221-226)
+     WritableBTreeV2.GetIncrementalRebalancingProgress  (233-243)
+   The shared state is the field bt.incrementalRebalancer (read and written only under bt.rebalMu) and the
+   IncrementalRebalancer objects it has pointed to.  Every EnableIncrementalRebalancing that succeeds creates
+   a NEW object (line 158), so the objects are numbered in installation order ("generation" k = index in
+   `t_gens`) and the field is `None` (nil) or `Some k`.
+
+   PRODUCT with system (a): every generation carries a full state `ist` of system (a) (patched, fixed = true)
+   and moves only by `istep true`; on top of it the tree level counts, per generation, the callers of
+   StopIncrementalRebalancing / GetIncrementalRebalancingProgress that hold that object in their local
+   variable `rebalancer` at each program point.  Any number of goroutines may call the four wrappers at any
+   time.  Critical sections under bt.rebalMu are single steps (they contain no blocking operation: Start()
+   and isRunning() inside them take only ir.mu, whose critical sections are finite and never take rebalMu).
+
+   Variants: `current` transcribes the code as it is; `early_detach` is the variant of seeded change C18-b:
+   StopIncrementalRebalancing sets bt.incrementalRebalancer = nil in its FIRST critical section (before
+   rebalancer.Stop()) and has no conditional clean-up in the second one.
+
+   Not modelled (no effect on the protocol state): the final batchRebalanceLocked() of lines 206-210 except
+   for its error return (label argument `ok`), the configuration defaults of lines 150-155, the values
+   returned by the two queries. *)
+Inductive tvariant := current | early_detach.
+
+Record gen := mkG {
+  g_in : ist;    (* the IncrementalRebalancer object: a state of system (a) *)
+  g_pre : nat;   (* Stop callers with `rebalancer` = this object, past line 192, before the critical section of rebalancer.Stop() (200 -> 267) *)
+  g_post : nat;  (* Stop callers for which rebalancer.Stop() has returned (200), before the second critical section (202) *)
+  g_prog : nat   (* GetProgress callers with `rebalancer` = this object, past line 236, before rebalancer.GetProgress() returns (242) *)
+}.
+
+(* a fresh object after Start() (line 167; Start = 251-259): system (a) after [IStartCall; ISpawn] *)
+Definition i_started : ist :=
+  match irun true i_init [IStartCall; ISpawn] with Some s => s | None => i_init end.
+Definition g_new : gen := mkG i_started 0 0 0.
+
+(* goroutines that may still run a rebalancing session: not yet past `ir.running = false` (line 312) *)
+Definition i_active (s : ist) : nat := i_spawn s + i_loop s + i_got s.
+
+(* steps local to one generation *)
+Inductive glabel :=
+| GHoldStop           (* a Stop caller has read this object from the field (line 191) *)
+| GStopInner          (* ... executes the critical section of rebalancer.Stop() (267-279) *)
+| GInner (l : ilabel) (* a step of system (a) other than a new Start/Stop call *)
+| GFinish             (* ... executes the second critical section of StopIncrementalRebalancing and returns *)
+| GHoldProg           (* a GetProgress caller has read this object from the field (line 235) *)
+| GProgDone.          (* rebalancer.GetProgress() (reads under rebalMu, then under ir.mu) returns *)
+
+Definition gstep (g : gen) (l : glabel) : option gen :=
+  let '(mkG i pre post prog) := g in
+  match l with
+  | GHoldStop => Some (mkG i (S pre) post prog)
+  | GStopInner =>
+      match pre with
+      | O => None
+      | S pre' =>
+          match istep true i IStopCall with
+          | Some i' => (* `return` at line 276 (never started): back in the wrapper at once *)
+              Some (mkG i' pre' (if negb (i_stopping i) && negb (i_running i) then S post else post) prog)
+          | None => None
+          end
+      end
+  | GInner IStartCall => None   (* Start is called by EnableIncrementalRebalancing only *)
+  | GInner IStopCall => None    (* Stop is called through GStopInner only *)
+  | GInner l' =>
+      match istep true i l' with
+      | Some i' => Some (mkG i' pre (match l' with IReturn => S post | _ => post end) prog)
+      | None => None
+      end
+  | GFinish => match post with O => None | S p => Some (mkG i pre p prog) end
+  | GHoldProg => Some (mkG i pre post (S prog))
+  | GProgDone => match prog with O => None | S p => Some (mkG i pre post p) end
+  end.
+
+Fixpoint upd (k : nat) (f : gen -> option gen) (l : list gen) : option (list gen) :=
+  match l, k with
+  | [], _ => None
+  | x :: r, O => match f x with Some y => Some (y :: r) | None => None end
+  | x :: r, S k' => match upd k' f r with Some r' => Some (x :: r') | None => None end
+  end.
+
+Definition at_gen (k : nat) (l : glabel) (gens : list gen) : option (list gen) := upd k (fun x => gstep x l) gens.
+
+Record tst := mkT {
+  t_field : option nat;  (* bt.incrementalRebalancer: None = nil, Some k = the k-th object installed *)
+  t_gens : list gen;     (* every object ever installed, in installation order *)
+  t_enables : nat;       (* successful EnableIncrementalRebalancing calls *)
+  t_refused : nat;       (* ... that returned an error (141 / 146) *)
+  t_stops : nat;         (* StopIncrementalRebalancing calls issued *)
+  t_ret_nil : nat;       (* ... that returned at line 195 (the field was nil) *)
+  t_ret : nat            (* ... that returned after rebalancer.Stop() (208 / 217) *)
+}.
+
+Definition t_init : tst := mkT None [] 0 0 0 0 0.
+
+(* bt.incrementalRebalancer != nil && bt.incrementalRebalancer.isRunning()   (145, 225) *)
+Definition field_running (fld : option nat) (gens : list gen) : bool :=
+  match fld with
+  | None => false
+  | Some k => match nth_error gens k with Some g => i_running (g_in g) | None => false end
+  end.
+
+Inductive tlabel :=
+| TEnable (lazy : bool)          (* whole body of EnableIncrementalRebalancing (one critical section incl. Start());
+                                    lazy = result of bt.lazyEnabledLocked() *)
+| TStopRead                      (* StopIncrementalRebalancing 190-196 *)
+| TStopInner (g : nat)           (* ... critical section of rebalancer.Stop() on object g *)
+| TInner (g : nat) (l : ilabel)  (* close(stopChan) / <-stoppedChan of a Stop caller, or a step of the worker of object g *)
+| TStopFinish (g : nat) (ok : bool) (* StopIncrementalRebalancing 202-217; ok = false: batchRebalanceLocked failed, return at 208 *)
+| TIsEnabled                     (* IsIncrementalRebalancingEnabled: reads only *)
+| TProgRead                      (* GetIncrementalRebalancingProgress 234-240 *)
+| TProgDone (g : nat).           (* ... line 242 *)
+
+Definition tstep (v : tvariant) (s : tst) (l : tlabel) : option tst :=
+  let '(mkT fld gens nen nref nst nnil nret) := s in
+  match l with
+  | TEnable lazy =>
+      if negb lazy || field_running fld gens
+      then Some (mkT fld gens nen (S nref) nst nnil nret)                                  (* 141 / 146 *)
+      else Some (mkT (Some (length gens)) (gens ++ [g_new]) (S nen) nref nst nnil nret)    (* 158, 167 *)
+  | TStopRead =>
+      match fld with
+      | None => Some (mkT fld gens nen nref (S nst) (S nnil) nret)                         (* 194-196 *)
+      | Some k =>
+          match at_gen k GHoldStop gens with
+          | Some gens' =>
+              Some (mkT (match v with current => fld | early_detach => None end) gens' nen nref (S nst) nnil nret)
+          | None => None
+          end
+      end
+  | TStopInner g =>
+      match at_gen g GStopInner gens with Some gens' => Some (mkT fld gens' nen nref nst nnil nret) | None => None end
+  | TInner g l' =>
+      match at_gen g (GInner l') gens with Some gens' => Some (mkT fld gens' nen nref nst nnil nret) | None => None end
+  | TStopFinish g ok =>
+      match at_gen g GFinish gens with
+      | Some gens' =>
+          let fld' := match v with
+                      | current =>                       (* 213-215: if bt.incrementalRebalancer == rebalancer { ... = nil } *)
+                          if ok then match fld with
+                                     | Some k => if Nat.eqb k g then None else fld
+                                     | None => None
+                                     end
+                          else fld
+                      | early_detach => fld
+                      end in
+          Some (mkT fld' gens' nen nref nst nnil (S nret))
+      | None => None
+      end
+  | TIsEnabled => Some s
+  | TProgRead =>
+      match fld with
+      | None => Some s                                                                     (* 238-240 *)
+      | Some k => match at_gen k GHoldProg gens with Some gens' => Some (mkT fld gens' nen nref nst nnil nret) | None => None end
+      end
+  | TProgDone g =>
+      match at_gen g GProgDone gens with Some gens' => Some (mkT fld gens' nen nref nst nnil nret) | None => None end
+  end.
+
+Inductive treach (v : tvariant) : tst -> Prop :=
+| TR0 : treach v t_init
+| TRS s l s' : treach v s -> tstep v s l = Some s' -> treach v s'.
+
+Fixpoint trun (v : tvariant) (s : tst) (ls : list tlabel) : option tst :=
+  match ls with [] => Some s | l :: r => match tstep v s l with Some s' => trun v s' r | None => None end end.
